@@ -51,8 +51,8 @@ DRIVERS = {
     "hist_long": lambda rng, tier: gen.gen_hist(rng, T(tier, 8, 64), length=T(tier, (150, 200), (300, 400)), full_every=25),
     "hist_full": lambda rng, tier: gen.gen_hist(rng, T(tier, 48, 600), full_every=1),
     "seq": lambda rng, tier: gen.gen_seq(rng, calls_per=T(tier, 8, None)),
-    "size": lambda rng, tier: gen.gen_size(rng, per_size=T(tier, 3, 24)),
-    "size_full": lambda rng, tier: gen.gen_size(rng, per_size=T(tier, 2, 12), obs="full"),
+    "size": lambda rng, tier: gen.gen_size(rng, per_size=T(tier, 3, 24)) + gen.gen_size_exact(rng, per_kt=T(tier, 260, None)),
+    "size_full": lambda rng, tier: gen.gen_size(rng, per_size=T(tier, 2, 12), obs="full") + gen.gen_size_exact(rng, per_kt=T(tier, 120, 600), obs="full"),
     "typed_q": lambda rng, tier: gen.gen_typed(rng, ALLPORTS, routes=("setter",), keys=["tcp"]) if tier == "quick"
     else gen.gen_typed(rng, ALLPORTS),
     "typed_b": lambda rng, tier: gen.gen_typed(rng, BPORTS, kts=("k256", "libsecp", "ed", "comb"), extra=T(tier, 30, 300)),
